@@ -559,18 +559,34 @@ static void both_point (const pt_t *p)
 #ifdef VF_TRK
 	uint64_t mark; long bad0;
 #endif
-	snprintf (g_case, sizeof g_case, "both codec=%d m=%d k=%d r=%d N1=%d seed=%d len=%d lost=%d", p->codec, p->m, k, r, p->N1, p->seed, len, p->prefix);
+	/* which repair symbols the session builds itself before it decodes: 0 all (increasing), 1 the last one only, 2 none,
+	 * 3 the first one only, 4 all in decreasing order (RS); the codeword it decodes comes from a separate encoder session */
+	int built = p->slotmode >= 9 ? p->slotmode - 9 : 0, nb = 0;
+	unsigned char **scratch = calloc ((size_t) n, sizeof (void *));
+	void **tab2 = calloc ((size_t) n, sizeof (void *));
+	snprintf (g_case, sizeof g_case, "both codec=%d m=%d k=%d r=%d N1=%d seed=%d len=%d lost=%d built=%d", p->codec, p->m, k, r, p->N1, p->seed, len, p->prefix, built);
 	memcpy (vf_slot (), g_case, sizeof g_case);
 	lost = p->prefix;
-	for (i = 0; i < n; i++) { sym[i] = calloc (1, (size_t) len); tab[i] = sym[i]; }
+	for (i = 0; i < n; i++) { sym[i] = calloc (1, (size_t) len); tab[i] = sym[i]; scratch[i] = calloc (1, (size_t) len); tab2[i] = i < k ? (void *) sym[i] : (void *) scratch[i]; }
 	for (i = 0; i < k; i++) fill_source (p, i, sym[i]);
+	{
+		of_session_t *twin = open_ses (p->codec, p->m, k, r, p->N1, p->seed, len, OF_ENCODER, &rej);
+		if (!twin) { viol ("C09", "kind=valid-configuration-rejected|role=encoder"); free (scratch); free (tab2); goto out; }
+		for (j = k; j < n; j++) of_build_repair_symbol (twin, tab, (UINT32) j);
+		of_release_codec_instance (twin);
+	}
 #ifdef VF_TRK
 	mark = vf_trk_mark (); bad0 = vf_trk_badfree_count ();
 #endif
 	s = open_ses (p->codec, p->m, k, r, p->N1, p->seed, len, OF_ENCODER_AND_DECODER, &rej);
-	if (!s) { viol ("C09", "kind=valid-configuration-rejected|role=both"); goto out; }
-	for (j = k; j < n; j++) if (of_build_repair_symbol (s, tab, (UINT32) j) != OF_STATUS_OK) { snprintf (sig, sizeof sig, "codec=%s|role=both|call=build|kind=failed", cn); viol ("C06", sig); break; }
-	vf_stat_add (st_trans, r);
+	if (!s) { viol ("C09", "kind=valid-configuration-rejected|role=both"); for (i = 0; i < n; i++) free (scratch[i]); free (scratch); free (tab2); goto out; }
+	for (j = (built == 4 ? n - 1 : k); built == 4 ? j >= k : j < n; j += (built == 4 ? -1 : 1)) {
+		if (built == 2 || (built == 1 && j != n - 1) || (built == 3 && j != k)) continue;
+		nb++;
+		if (of_build_repair_symbol (s, tab2, (UINT32) j) != OF_STATUS_OK) { snprintf (sig, sizeof sig, "codec=%s|role=both|call=build|kind=failed", cn); viol ("C06", sig); break; }
+		if (memcmp (scratch[j], sym[j], (size_t) len)) { snprintf (sig, sizeof sig, "codec=%s|role=both|call=build|kind=differs-from-encoder-session|built=%d", cn, built); viol ("C06", sig); }
+	}
+	vf_stat_add (st_trans, nb);
 	/* now decode on the same session: every symbol but `lost` sources (the first `lost` ones) */
 	for (i = lost; i < n; i++) if (of_decode_with_new_symbol (s, sym[i], (UINT32) i) != OF_STATUS_OK) { snprintf (sig, sizeof sig, "codec=%s|role=both|call=DWS|kind=status-not-ok", cn); viol ("C10", sig); break; }
 	{
@@ -592,6 +608,8 @@ static void both_point (const pt_t *p)
 	if (vf_trk_live_since (mark, NULL)) { snprintf (sig, sizeof sig, "codec=%s|kind=leak|lifecycle=encoder-then-decoder-on-one-session|lost=%d", cn, lost > 0); viol ("C08", sig); }
 	if (vf_trk_badfree_count () != bad0) { snprintf (sig, sizeof sig, "codec=%s|kind=free-of-non-live-block|lifecycle=encoder-then-decoder-on-one-session", cn); viol ("C08", sig); }
 #endif
+	for (i = 0; i < n; i++) free (scratch[i]);
+	free (scratch); free (tab2);
 out:
 	for (i = 0; i < n; i++) free (sym[i]);
 	free (sym); free (tab); free (src);
@@ -690,7 +708,7 @@ static void item (long it, void *arg)
 	(void) arg;
 	vf_slot_set_prop (PROP);
 	if (vf_deadline_hit ()) { static int said; if (!said) { said = 1; vf_incomplete ("deadline reached at point %ld of %ld", it, NPT); } return; }
-	if (PT[it].slotmode == 8) refmds_point (&PT[it]); else if (PT[it].slotmode == 9) both_point (&PT[it]); else if (PT[it].codec == 5) p2d_point (&PT[it]); else if (PT[it].codec == 3) ldpc_point (&PT[it]); else rs_point (&PT[it]);
+	if (PT[it].slotmode == 8) refmds_point (&PT[it]); else if (PT[it].slotmode >= 9) both_point (&PT[it]); else if (PT[it].codec == 5) p2d_point (&PT[it]); else if (PT[it].codec == 3) ldpc_point (&PT[it]); else rs_point (&PT[it]);
 	vf_stat_add (st_states, 1);
 }
 
@@ -703,7 +721,7 @@ static void item_replay (long it, void *arg)
 	memset (&p, 0, sizeof p);
 	if (sscanf (cs, "rs codec=%d m=%d k=%d n=%d len=%d align=%d", &p.codec, &p.m, &p.k, &p.n, &p.len, &p.prefix) >= 5) { p.r = p.n - p.k; rs_point (&p); }
 	else if (sscanf (cs, "ldpc k=%d r=%d N1=%d seed=%d len=%d prefix=%d align=%d", &p.k, &p.r, &p.N1, &p.seed, &p.len, &p.prefix, &p.slotmode) >= 6) { p.codec = 3; p.n = p.k + p.r; ldpc_point (&p); }
-	else if (sscanf (cs, "both codec=%d m=%d k=%d r=%d N1=%d seed=%d len=%d lost=%d", &p.codec, &p.m, &p.k, &p.r, &p.N1, &p.seed, &p.len, &p.prefix) == 8) { p.n = p.k + p.r; p.slotmode = 9; both_point (&p); }
+	else if (sscanf (cs, "both codec=%d m=%d k=%d r=%d N1=%d seed=%d len=%d lost=%d", &p.codec, &p.m, &p.k, &p.r, &p.N1, &p.seed, &p.len, &p.prefix) == 8) { int b = 0; const char *q = strstr (cs, " built="); if (q) b = atoi (q + 7); p.n = p.k + p.r; p.slotmode = 9 + b; both_point (&p); }
 	else if (!strncmp (cs, "hist ", 5)) {
 		long seq; int c;
 		if (sscanf (cs, "hist alpha=%d len=%d seq=%ld", &g_halpha, &g_hlen, &seq) == 3) { for (c = 0; c < g_halpha; c++) HREF[c] = rfc5170_H (HC[c].k, HC[c].k + HC[c].r, HC[c].N1, (uint64_t) HC[c].seed, NULL); hist_item (seq, NULL); }
@@ -749,8 +767,12 @@ int main (int argc, char **argv)
 		for (i = 0; i < (int) (sizeof lens / sizeof lens[0]); i++) { add_pt (1, 8, 5, 4, 0, 0, lens[i], 0); add_pt (2, 8, 5, 4, 0, 0, lens[i], 0); add_pt (2, 4, 5, 4, 0, 0, lens[i], 0); add_pt (2, 4, 14, 1, 0, 0, lens[i], 0); add_pt (1, 8, 17, 3, 0, 0, lens[i], 0); }
 	} else if (!strcmp (mode, "both")) {
 		int lost, codec;
-		for (codec = 1; codec <= 2; codec++) for (k = 1; k <= 6; k++) for (r = 1; r <= 4; r++) for (lost = 0; lost <= r && lost <= k; lost++) { add_pt (codec, 8, k, r, 0, 0, k + 3, lost); PT[NPT - 1].slotmode = 9; if (codec == 2) { add_pt (2, 4, k, r, 0, 0, k + 3, lost); PT[NPT - 1].slotmode = 9; } }
-		for (k = 2; k <= 8; k++) for (r = 3; r <= 6; r++) for (N1 = 3; N1 <= r && N1 <= 5; N1++) for (lost = 0; lost <= 2; lost++) { add_pt (3, 0, k, r, N1, 1 + (k + r) % 3, k + 3, lost); PT[NPT - 1].slotmode = 9; }
+		int bv;
+		for (bv = 0; bv <= 4; bv++) {
+			for (codec = 1; codec <= 2; codec++) for (k = 1; k <= 6; k++) for (r = 1; r <= 4; r++) for (lost = 0; lost <= r && lost <= k; lost++) { add_pt (codec, 8, k, r, 0, 0, k + 3, lost); PT[NPT - 1].slotmode = 9 + bv; if (codec == 2) { add_pt (2, 4, k, r, 0, 0, k + 3, lost); PT[NPT - 1].slotmode = 9 + bv; } }
+			if (bv == 1 || bv == 4) continue;	/* LDPC needs the previous repair symbol: all / none / the first one only */
+			for (k = 2; k <= 8; k++) for (r = 3; r <= 6; r++) for (N1 = 3; N1 <= r && N1 <= 5; N1++) for (lost = 0; lost <= 2; lost++) { add_pt (3, 0, k, r, N1, 1 + (k + r) % 3, k + 3, lost); PT[NPT - 1].slotmode = 9 + bv; }
+		}
 	} else if (!strcmp (mode, "2d")) {
 		for (k = 0; k <= 17; k++) for (r = 0; r <= 26; r++) add_pt (5, 0, k, r, 0, 0, k + 2, 0);
 		{	/* every accepted pair again with long symbols */
